@@ -89,6 +89,16 @@ claim("C16",
       "patterns wins, empty {name} segments, 404 vs 405.",
       "TLC exhaustive model checking + vectors replayed on real code + TLC trace validation", "DESIGN.md 6 (C16)")
 
+claim("C20",
+      "Concurrency.tla (K request processes x handler regions pre/decode/service/encode x shared objects with their locks; NoConflict, Echo, Termination) is "
+      "model-checked for every interleaving of gate passes (K=2 quick, K=3 thorough); every schedule TLC emits is replayed on the real generated server with K "
+      "goroutines gated at the decoder factory, the stub service and the encoder factory and released in the emitted order under the race detector; the "
+      "replayed schedules are validated by TLC as traces (gates in handler order, race reports = 0, echo); plus 32-64 goroutine load on one mounted server and "
+      "direct concurrent use of ErrorEncoder, ResponseEncoder, muxer, ValidatePattern, samplers, MergeErrors.",
+      "Trusted: the Go race detector (race reports are an observed fact; gates add no happens-before edge between the released segments), rt scheduler, the "
+      "sequential run of each scenario as the echo reference. Interleavings finer than the gates are left to the Go scheduler under load.",
+      "TLC exhaustive model checking of interleavings + schedule replay on generated code under -race + TLC trace validation", "DESIGN.md 6 (C20)")
+
 for p in ALL:
     if p not in CLAIMED:
         NOT_APPLICABLE[p] = "check not built yet in this revision (planned with the same technique, see DESIGN.md section 6)"
